@@ -2,7 +2,7 @@
 (* Trace validation for C10: every recorded execution of the real handler  *)
 (* must be a behaviour of ServerSM, with the projected durable state bound *)
 (* to the abstract variables after every event.                            *)
-EXTENDS ServerSM, TLC, Json, IOUtils
+EXTENDS ServerSM, Integers, TLC, Json, IOUtils
 
 Traces == JsonDeserialize(IOEnv.TRACE_FILE)
 
@@ -14,7 +14,11 @@ Ev == Tr[l]
 
 (* the logged projection of the durable state after the event.  Before the state is "ready" no client can observe what an   *)
 (* index file holds (an upload the server could not store may have left an empty one): the index is bound in state 2 only.  *)
-Observed == st' = Ev.d.st /\ cfg' = Ev.d.cfg /\ (Ev.d.st = 2 => idx' = Ev.d.idx)
+(* the durable projection: a folder without the meta file (-1) is what the server itself reads as state 0; what a refused,  *)
+(* unstorable upload leaves in a file that no client can observe in that state (the configuration file in state 0, the    *)
+(* index file below state 2) is not bound                                                                                  *)
+StOf(d) == IF d.st = -1 THEN 0 ELSE d.st
+Observed == st' = StOf(Ev.d) /\ (StOf(Ev.d) >= 1 => cfg' = Ev.d.cfg) /\ (Ev.d.st = 2 => idx' = Ev.d.idx)
 
 Act ==
     CASE Ev.e = "connect" -> Connect(Ev.rep)
